@@ -244,13 +244,16 @@ Inductive step :=
    events are concatenated and renumbered), then committed; evs = the block's events as the engine stores them
    (first topic: 202/203 = block-level default topics, 1000+k = id of the k-th transaction) *)
 | SCBlock (height : N) (nb na : nat) (txs : list tx) (evs : list ev_obs) (r : res) (rootref treeref : bool) (d : dump)
+(* Finalize(fh) *)
+| SFin (fh : N) (r : res) (treeref : bool) (d : dump)
 | SRevert (height : N) (e : expect) (r : res) (rootref treeref : bool) (d : dump)
 | SInit (last : N) (wrong_root : bool) (r : res) (rootref treeref : bool) (d : dump).
 
 Definition bogus : root := [([255], [255])].
 
 (* model state: application db, engine's roots per height, dumps recorded after each committed block, tip *)
-Record mstate := { m_db : appdb root root; m_roots : list (N * root); m_states : list (N * store); m_tip : N }.
+Record mstate := { m_db : appdb root root; m_roots : list (N * root); m_states : list (N * store); m_tip : N;
+                   m_floor : N (* lowest height still undoable: max over Finalize(fh) of fh - 1 *) }.
 Fixpoint nget {A : Type} (l : list (N * A)) (h : N) : option A :=
   match l with [] => None | (h', a) :: t => if h' =? h then Some a else nget t h end.
 
@@ -279,7 +282,7 @@ Definition check_step (m : mstate) (st : step) : N * mstate :=
       let committed := res_eqb r ROk' && negb dry in
       let m' := if committed
                 then {| m_db := a'; m_roots := (height, right) :: m_roots m; m_states := (height, fst d) :: m_states m;
-                        m_tip := height |}
+                        m_tip := height; m_floor := m_floor m |}
                 else m in
       let ref := spec_block height (a_state (m_db m)) (a_state (m_db m)) {| ps_count := 0; ps_saved := [] |} txs true in
       (code (am && res_eqb mr r && db_matches a' d)
@@ -316,7 +319,7 @@ Definition check_step (m : mstate) (st : step) : N * mstate :=
       let committed := res_eqb r ROk' in
       let m' := if committed
                 then {| m_db := a'; m_roots := (height, newroot) :: m_roots m; m_states := (height, fst d) :: m_states m;
-                        m_tip := height |}
+                        m_tip := height; m_floor := m_floor m |}
                 else m in
       let e0 := {| ps_count := 0; ps_saved := [] |} in
       (code (am1 && am2 && res_eqb mr r && db_matches a' d)
@@ -351,11 +354,18 @@ Definition check_step (m : mstate) (st : step) : N * mstate :=
       let committed := res_eqb r ROk' in
       let m' := if committed
                 then {| m_db := a'; m_roots := (height, newroot) :: m_roots m; m_states := (height, fst d) :: m_states m;
-                        m_tip := height |}
+                        m_tip := height; m_floor := m_floor m |}
                 else m in
       (code (allok && evs_eqb mevs evs && res_eqb mr r && db_matches a' d)
             ((* the block's events are numbered 0,1,2,... in the engine's list; the block is committed with the SMT root *)
              consecutive evs 0 height && res_eqb r ROk' && rootref && treeref), m')
+  | SFin fh r treeref d =>
+      let a' := finalize (m_db m) fh in
+      let m' := {| m_db := a'; m_roots := m_roots m; m_states := m_states m; m_tip := m_tip m;
+                   m_floor := N.max (m_floor m) (fh - 1) |} in
+      (code (res_eqb r ROk' && db_matches a' d)
+            (res_eqb r ROk' && treeref &&
+             match nget (m_states m) (m_tip m) with Some s => store_eqb s (fst d) | None => Nat.eqb (length (fst d)) 0 end), m')
   | SRevert height e r rootref treeref d =>
       let cur := match nget (m_roots m) height with Some x => x | None => [] end in
       let prev := match nget (m_roots m) (height - 1) with Some x => x | None => [] end in
@@ -365,9 +375,13 @@ Definition check_step (m : mstate) (st : step) : N * mstate :=
                        | ROk a' _ => (a', ROk') | RNoDiff => (m_db m, RNoDiff') | RMismatch _ => (m_db m, RMismatch')
                        | RPanic | RForeignRoot => (m_db m, ROther) end in
       let ok := res_eqb r ROk' in
-      let m' := if ok then {| m_db := a'; m_roots := m_roots m; m_states := m_states m; m_tip := height - 1 |} else m in
+      let m' := if ok then {| m_db := a'; m_roots := m_roots m; m_states := m_states m; m_tip := height - 1; m_floor := m_floor m |} else m in
       (code (res_eqb mr r && db_matches a' d)
-            (if ok then rootref && treeref &&
+            ((* every block above the finalised floor can be reverted (unless a wrong root is expected); at or below it
+                the diff is gone *)
+             (if m_floor m <? height then res_eqb r (match e with EWrong => RMismatch' | _ => ROk' end)
+              else res_eqb r RNoDiff') &&
+             if ok then rootref && treeref &&
                         match nget (m_states m) (height - 1) with
                         | Some s => store_eqb s (fst d) | None => Nat.eqb (length (fst d)) 0 end &&
                         match snd d with Some h => h =? height - 1 | None => false end
@@ -380,7 +394,7 @@ Definition check_step (m : mstate) (st : step) : N * mstate :=
                        | IRevertErr a' RNoDiff => (a', RNoDiff') | IRevertErr a' _ => (a', ROther) | IFuel => (m_db m, ROther) end in
       let rolled := res_eqb r ROk' || res_eqb r RConflict in
       let m' := if rolled then {| m_db := a'; m_roots := m_roots m; m_states := m_states m;
-                                  m_tip := if last <=? m_tip m then last else m_tip m |} else m in
+                                  m_tip := if last <=? m_tip m then last else m_tip m; m_floor := m_floor m |} else m in
       (code (res_eqb mr r && db_matches a' d)
             (if res_eqb r ROk' then
                rootref && treeref &&
@@ -400,4 +414,4 @@ Fixpoint check_steps (m : mstate) (ss : list step) (i : N) (first_model : N) : N
 
 Definition check_scenario (ss : list step) : N :=
   check_steps {| m_db := {| a_state := []; a_tree := []; a_diffs := []; a_tree_state := None |}; m_roots := [(0, [])]; m_states := [(0, [])];
-                 m_tip := 0 |} ss 0 0.
+                 m_tip := 0; m_floor := 0 |} ss 0 0.
